@@ -619,6 +619,21 @@ func (x *Exec) evalCall(env *SpecEnv, c *ast.CallExpr) specVal {
 				st = env.old
 			}
 			return specVal{term: x.strOfBytes(st, b.term), typ: tString}
+		case "G_held":
+			// $held(Type.field): the mutex field of the type is held (ghost, set by Lock/Unlock)
+			sel, ok := c.Args[0].(*ast.SelectorExpr)
+			if !ok {
+				return env.fail("$held needs Type.field")
+			}
+			ty := x.tryResolveType(sel.X, env)
+			if ty == nil {
+				return env.fail("$held: unknown type %s", exprString(sel.X))
+			}
+			st := env.st
+			if env.inOld && env.old != nil {
+				st = env.old
+			}
+			return specVal{term: x.ghostGet(st, "held|"+typeKey(ty)+"."+sel.Sel.Name), typ: tBool}
 		case "G_arr":
 			// $arr(s): identity of the backing array of a slice
 			v := x.evalSpec(env, c.Args[0])
